@@ -10,6 +10,11 @@ Proof. reflexivity. Qed.
 Lemma done_value_is_done : Nat.eqb cache_done_value cache_done_test = false.
 Proof. reflexivity. Qed.
 
+(* Cache.Do has no defer statement (regenerated from the source): when f does not return, nothing releases e.mu and
+   nothing sets e.done -- the model's crash transition *)
+Lemma do_unlock_not_deferred : cache_do_deferred = 0.
+Proof. reflexivity. Qed.
+
 Definition is_call (k : nat) (p : cpc) : bool := match p with DCall k' => Nat.eqb k' k | _ => false end.
 Definition is_inf (k : nat) (p : cpc) : bool := match p with DInF k' _ => Nat.eqb k' k | _ => false end.
 Definition is_wr (k : nat) (p : cpc) : bool := match p with DWrite k' _ => Nat.eqb k' k | _ => false end.
@@ -53,6 +58,9 @@ Lemma fr_stack k th k' j' st : stack th = (k', j') :: st ->
 Proof. intros H; unfold fr; rewrite H, cntg_cons; reflexivity. Qed.
 Lemma fr_nil k th : stack th = [] -> fr k th = 0.
 Proof. intros H; unfold fr; rewrite H; reflexivity. Qed.
+Lemma fr_dead k th : fr k (dead th) = 0. Proof. reflexivity. Qed.
+Lemma orphans_fr k0 th k : orphans k0 (stack th) k = b2n (Nat.eqb k0 k) + fr k th.
+Proof. unfold orphans, fr, cntg. destruct (Nat.eqb k0 k); reflexivity. Qed.
 Lemma fr_mk k p st r rs ns : fr k (mkThr p st r rs ns) = cntg (fun f : nat * nat => Nat.eqb (fst f) k) st.
 Proof. reflexivity. Qed.
 
@@ -90,16 +98,18 @@ Lemma isd_set_result v e : isd (set_result v e) = isd e. Proof. reflexivity. Qed
 Lemma isd_inc_fbegins e : isd (inc_fbegins e) = isd e. Proof. reflexivity. Qed.
 Lemma isd_inc_fends e : isd (inc_fends e) = isd e. Proof. reflexivity. Qed.
 Lemma isd_set_done e : isd (set_done cache_done_value e) = true. Proof. apply isd_donev; reflexivity. Qed.
+Lemma isd_add_orph n e : isd (add_orph n e) = isd e. Proof. reflexivity. Qed.
 
-Ltac isdsimp := rewrite ?isd_set_present, ?isd_set_locked, ?isd_set_result, ?isd_inc_fbegins, ?isd_inc_fends, ?isd_set_done in *.
+Ltac isdsimp := rewrite ?isd_set_present, ?isd_set_locked, ?isd_set_result, ?isd_inc_fbegins, ?isd_inc_fends, ?isd_set_done, ?isd_add_orph in *.
 
 Section Base.
 Variable fval : nat -> option nat.
 Variable deps : nat -> list nat.
+Variable crash : nat -> bool.
 Variable progs : list (list call).
 
-Notation cstep := (cstep fval deps).
-Notation crun := (crun fval deps).
+Notation cstep := (cstep fval deps crash).
+Notation crun := (crun fval deps crash).
 Notation init := (cinit progs).
 
 Inductive creachable : cstate -> Prop :=
@@ -126,7 +136,7 @@ Inductive stepC (s : cstate) (t : nat) (th : thr) : cstate -> Prop :=
     stepC s t th (mkC (set_nth t (goto th (DCall k)) (thrs s)) (ents s) (plain s))
 | S_call k : tpc th = DCall k ->
     stepC s t th (mkC (set_nth t (goto th (DInF k 0)) (thrs s)) (upd k (inc_fbegins (ents s k)) (ents s)) (plain s))
-| S_fret k j : tpc th = DInF k j -> nth_error (deps k) j = None ->
+| S_fret k j : tpc th = DInF k j -> nth_error (deps k) j = None -> crash k = false ->
     stepC s t th (mkC (set_nth t (goto th (DWrite k (fval k))) (thrs s)) (upd k (inc_fends (ents s k)) (ents s)) (plain s))
 | S_write k v : tpc th = DWrite k v ->
     stepC s t th (mkC (set_nth t (goto th (DStore k)) (thrs s)) (upd k (set_result v (ents s k)) (ents s))
@@ -151,7 +161,9 @@ Inductive stepC (s : cstate) (t : nat) (th : thr) : cstate -> Prop :=
     stepC s t th (mkC (set_nth t (push th k (S j) d) (thrs s)) (ents s) (plain s))
 | S_nret k k' j' st : tpc th = DRead k -> stack th = (k', j') :: st ->
     stepC s t th (mkC (set_nth t (mkThr (DInF k' j') st (rest th) (rets th) ((k, result (ents s k)) :: nrets th)) (thrs s))
-                      (ents s) ((t, k, false) :: plain s)).
+                      (ents s) ((t, k, false) :: plain s))
+| S_crash k j : tpc th = DInF k j -> nth_error (deps k) j = None -> crash k = true ->
+    stepC s t th (mkC (set_nth t (dead th) (thrs s)) (fun k' => add_orph (orphans k (stack th) k') (ents s k')) (plain s)).
 
 Lemma cstep_inv s t s' : cstep s t = Some s' -> exists th, nth_error (thrs s) t = Some th /\ stepC s t th s'.
 Proof.
@@ -164,7 +176,8 @@ Proof.
   - destruct (locked (ents s k)) eqn:E; [discriminate|]. injection H as <-. eapply S_lock; eauto.
   - destruct (isd (ents s k)) eqn:E; injection H as <-; [eapply S_l2_done|eapply S_l2_not]; eauto.
   - injection H as <-. eapply S_call; eauto.
-  - destruct (nth_error (deps k) j) as [d|] eqn:E; injection H as <-; [eapply S_nest|eapply S_fret]; eauto.
+  - destruct (nth_error (deps k) j) as [d|] eqn:E; [injection H as <-; eapply S_nest; eauto|].
+    destruct (crash k) eqn:Ec; injection H as <-; [eapply S_crash|eapply S_fret]; eauto.
   - injection H as <-. eapply S_write; eauto.
   - injection H as <-. eapply S_store; eauto.
   - injection H as <-. eapply S_unlock; eauto.
@@ -176,11 +189,11 @@ Qed.
 
 (* ---- group A: counting invariant around the mutex and the done flag *)
 Record InvA (s : cstate) : Prop := {
-  a_lock : forall k, C (holds k) (thrs s) + F k (thrs s) = b2n (locked (ents s k));
+  a_lock : forall k, C (holds k) (thrs s) + F k (thrs s) + orph (ents s k) = b2n (locked (ents s k));
   a_done : forall k, done (ents s k) = 0 \/ done (ents s k) = cache_done_value;
   a_nof : forall k, isd (ents s k) = true ->
-            C (is_call k) (thrs s) + C (is_inf k) (thrs s) + F k (thrs s) + C (is_wr k) (thrs s) + C (is_st k) (thrs s) = 0;
-  a_fb : forall k, fbegins (ents s k) = C (is_inf k) (thrs s) + F k (thrs s) + C (is_wr k) (thrs s) + C (is_st k) (thrs s) + b2n (isd (ents s k));
+            C (is_call k) (thrs s) + C (is_inf k) (thrs s) + F k (thrs s) + C (is_wr k) (thrs s) + C (is_st k) (thrs s) + orph (ents s k) = 0;
+  a_fb : forall k, fbegins (ents s k) = C (is_inf k) (thrs s) + F k (thrs s) + C (is_wr k) (thrs s) + C (is_st k) (thrs s) + b2n (isd (ents s k)) + orph (ents s k);
   a_fe : forall k, fends (ents s k) = C (is_wr k) (thrs s) + C (is_st k) (thrs s) + b2n (isd (ents s k))
 }.
 
@@ -207,9 +220,9 @@ Ltac cfacts k t th' Hn :=
   pose proof (F_set_nth k t _ th' _ Hn).
 
 Ltac csimp :=
-  rewrite ?fr_goto, ?fr_ret, ?fr_push, ?fr_mk in *;
-  cbn [tpc goto ret push thrs ents plain holds is_call is_inf is_wr is_st b2n
-       present done locked result fbegins fends set_present set_done set_locked set_result inc_fbegins inc_fends] in *.
+  rewrite ?fr_goto, ?fr_ret, ?fr_push, ?fr_mk, ?fr_dead, ?orphans_fr in *;
+  cbn [tpc goto ret push dead thrs ents plain holds is_call is_inf is_wr is_st b2n
+       present done locked result fbegins fends orph set_present set_done set_locked set_result inc_fbegins inc_fends add_orph] in *.
 
 (* the tactic that closes the per-key goals of the counting invariant *)
 Ltac key_case k0 k :=
@@ -219,8 +232,8 @@ Ltac key_case k0 k :=
 Lemma step_InvA s t th s' : InvA s -> nth_error (thrs s) t = Some th -> stepC s t th s' -> InvA s'.
 Proof.
   intros [Hl Hd Hn Hfb Hfe] Hnth HS.
-  destruct HS as [k0 Hp E|k0 Hp E|k0 Hp|k0 Hp E|k0 Hp E|k0 Hp E|k0 Hp E|k0 Hp E|k0 Hp|k0 j0 Hp E|k0 v Hp|k0 Hp|k0 Hp|k0 Hp E0
-                 |k0 Hp E|k0 Hp E|k0 Hp E|k0 Hp E|k0 Hp|k0 j0 d0 Hp E|k0 k1 j1 st1 Hp E];
+  destruct HS as [k0 Hp E|k0 Hp E|k0 Hp|k0 Hp E|k0 Hp E|k0 Hp E|k0 Hp E|k0 Hp E|k0 Hp|k0 j0 Hp E Ec|k0 v Hp|k0 Hp|k0 Hp|k0 Hp E0
+                 |k0 Hp E|k0 Hp E|k0 Hp E|k0 Hp E|k0 Hp|k0 j0 d0 Hp E|k0 k1 j1 st1 Hp E|k0 j0 Hp E Ec];
     try (pose proof (fun k => fr_stack k th _ _ _ E) as Hfr);
     constructor; intros k; try specialize (Hfr k);
     match goal with |- context [set_nth t ?th' _] => cfacts k t th' Hnth end;
